@@ -91,7 +91,7 @@ fn c19_quantity_to_time_value() {
     }
     reach!();
 }
-//@ob fn="State::update" at=src/state.rs:37 clause="v' = v + dt*a, p' = p + dt*(v+v')/2 with dt = (ns as f32)/1e9 as f32 expressions, acceleration unchanged, in this configuration"
+//@ob prop=C19,C14 fn="State::update" at=src/state.rs:37 clause="v' = v + dt*a, p' = p + dt*(v+v')/2 with dt = (ns as f32)/1e9 as f32 expressions, acceleration unchanged, in this configuration"
 #[kani::proof]
 #[kani::solver(cvc5)]
 fn c19_state_update_values() {
@@ -107,7 +107,7 @@ fn c19_state_update_values() {
     assert!(fsame(s.acceleration, s0.acceleration)); // (bit comparison via to_bits is not meaningful for NaN under the SMT FP theory)
     reach!();
 }
-//@ob fn="State::set_constant_position / velocity / acceleration, State::new, getters" at=src/state.rs:52 clause="correctly dimensioned arguments give the same fields in this configuration; with checking compiled out every argument is accepted and nothing panics"
+//@ob prop=C19,C14 fn="State::set_constant_position / velocity / acceleration, State::new, getters" at=src/state.rs:52 clause="correctly dimensioned arguments give the same fields in this configuration; with checking compiled out every argument is accepted and nothing panics"
 #[kani::proof]
 fn c19_state_setters() {
     let mut s: State = kani::any();
@@ -161,7 +161,7 @@ fn c19_command_quantity_values() {
     reach!();
 }
 
-//@ob fn="enhanced_float::powf" at=src/enhanced_float.rs:5 clause="(no_std + libm builds; under std the platform powf is an intrinsic Kani does not model) the power function selected by the configuration agrees with IEEE pow on its special cases and on exactly representable results: powf(x, 0) = 1 for x in {0, -0, 1, -2, 2.5}; powf(1, y) = 1; powf(-2, 3) = -8; powf(2, 10) = 1024; powf(0, 2) = 0; powf(4, 0.5) = 2 (beyond the last-ulps difference the property tolerates)" bounded="11 concrete points (special cases and exactly representable results)" configs=libm_nocheck,libm_check
+//@ob prop=C19,C12 fn="enhanced_float::powf" at=src/enhanced_float.rs:5 clause="(no_std + libm builds; under std the platform powf is an intrinsic Kani does not model) the power function selected by the configuration agrees with IEEE pow on its special cases and on exactly representable results: powf(x, 0) = 1 for x in {0, -0, 1, -2, 2.5}; powf(1, y) = 1; powf(-2, 3) = -8; powf(2, 10) = 1024; powf(0, 2) = 0; powf(4, 0.5) = 2 (beyond the last-ulps difference the property tolerates)" bounded="11 concrete points (special cases and exactly representable results)" configs=libm_nocheck,libm_check
 #[kani::proof]
 #[kani::unwind(40)]
 fn c19_powf_special_cases() {
